@@ -19,6 +19,39 @@ CHECKS = {
         note="trusted: TLC, the level table in CExpr.tla as a reading of C99 6.5, the 60-line projection harness/proj.py"),
 }
 
+CHECKS.update({
+    "C04": dict(
+        category="model_checking", design_ref="DESIGN.md section 5 C04, 3.4 (Scope / ScopeImpl), 3.3 (TokStream)",
+        technique="TLC-enumerated declaration histories of a TLA+ scope machine (Scope.tla) replayed as probe programs; hook traces validated against ParserTrace.tla",
+        text="TLC enumerates every history of declarations of 2 names over file/function/block scopes (spec/Scope.tla = C99 "
+             "6.2.1/6.2.3, with pycparser's mechanism carried alongside as named deviations and the refinement between the "
+             "two model-checked); every history ends in a probe whose class the standard fixes and is replayed through "
+             "CParser in all four probe shapes. The hook traces of the rendered programs and of the corpus are validated "
+             "event by event against spec/ParserTrace.tla (innermost lookup, class frozen at lex time, lookahead safety, "
+             "scope/brace agreement).",
+        note="trusted: TLC, Scope.tla as a reading of 6.2.1, the renderer of histories in harness/checks/c04.py"),
+    "C09": dict(
+        category="model_checking", design_ref="DESIGN.md section 5 C09, 3.1-3.2 (CLiterals, CLex)",
+        technique="TLA+ lexer cursor machine (CLex.tla) model-checked over all short strings and token/gap layouts, replayed into CLexer; recorded token() calls validated against CLexTrace.tla",
+        text="spec/CLex.tla (cursor machine over C99 6.4 / 6.10.4 scanners in CLiterals.tla) is run by TLC over every string up "
+             "to length 4 (quick) / 5 (thorough) over a 20-character alphabet and over token-gap-token(-gap-token) layouts of "
+             "the full vocabulary incl. #line, linemarkers and #pragma; Progress, Lossless, PositionExact, Accounted and "
+             "LiteralsWellFormed are checked on the spec; every finished state (expected tokens with line/column, final "
+             "cursor, or the offset range in which an error must be reported) is replayed into the real CLexer. In the other "
+             "direction every token() call recorded on the preprocessed corpus and on random re-layouts is validated against "
+             "CLexTrace.tla (cursor pos/line/lstart/file/pending recomputed from the raw text).",
+        note="trusted: TLC, CLiterals.tla as a reading of C99 6.4, the comparison in harness/lexrun.py; after the first reported error only progress is required"),
+    "C10": dict(
+        category="model_checking", design_ref="DESIGN.md section 5 C10, 3.1 (CLiterals)",
+        technique="TLA+ literal grammar (CLiterals.tla) enumerated by TLC over literal alphabets and building blocks, replayed into CLexer and CParser (Constant.type/value)",
+        text="TLC enumerates every string over integer / floating / quote alphabets up to length 5-6 and every combination of "
+             "literal building blocks (prefix x digits x suffix; prefix x quote x c-chars x quote); spec/CLiterals.tla decides "
+             "class, well-formedness, the position where an error must be reported and the Constant.type the spelling "
+             "implies; the real lexer must agree token for token and the real parser must build Constant(type, value) "
+             "accordingly.",
+        note="trusted: TLC, CLiterals.tla (C99 6.4.4/6.4.5 + named extensions), harness/lexrun.py"),
+})
+
 PENDING = {}
 
 
